@@ -991,6 +991,24 @@ impl Schedule {
             self.update_depot_usage(depot_usage, vehicles, tours, provider_id);
         }
 
+        // a receiver that takes over another start depot needs a free place there
+        if self.is_vehicle(receiver) {
+            let old_start_depot = self.tour_of(receiver).unwrap().start_depot().unwrap();
+            let new_start_depot = new_tour_receiver.start_depot().unwrap();
+            if new_start_depot != old_start_depot
+                && !self.can_depot_spawn_vehicle_custom_usage(
+                    new_start_depot,
+                    self.vehicle_type_of(receiver).unwrap(),
+                    depot_usage,
+                )
+            {
+                return Err(format!(
+                    "Cannot reassign start depot {} to vehicle {}. Depot has no capacity available.",
+                    new_start_depot, receiver
+                ));
+            }
+        }
+
         // update extended tour of the receiver
         self.update_tour_and_costs(tours, dummy_tours, costs, receiver, new_tour_receiver);
         self.update_depot_usage(depot_usage, vehicles, tours, receiver);
